@@ -151,6 +151,8 @@ class Eval:
             if name.endswith("Option::Some"): return some(self.ev(e[2][0][1], env))
             if name.endswith("Option::None"): return NONE
             if name == "tuple": return ("tuple", [self.ev(v, env) for f, v in e[2]])
+            if e[2] and not all(str(f).isdigit() for f, v in e[2]):
+                return ("struct", name, {str(f): self.ev(v, env) for f, v in e[2]})
             return ("variant", name, [self.ev(v, env) for f, v in e[2]], None)
         if k == "as": return self.ev(e[1], env)
         if k == "field":
@@ -161,6 +163,7 @@ class Eval:
                 if base[0] == "captures":
                     if e[2] in base[1]: return self.ev_captured(base[1][e[2]])
                     raise Unknown("capture %s" % e[2])
+                if base[0] == "struct" and str(e[2]) in base[2]: return base[2][str(e[2])]
                 if base[0] == "tuple" and str(e[2]).isdigit(): return base[1][int(e[2])]
                 if base[0] == "variant" and str(e[2]).isdigit() and int(e[2]) < len(base[2]): return base[2][int(e[2])]
             raise Unknown("field %s of %r" % (e[2], base))
